@@ -99,6 +99,9 @@ def oracle(case, outcome, ctx):
     desc = f"t={case['t']} target_mode={design.get('target_mode')} haps={design.get('haps')} primary={design.get('primary')}\ninput={case['input']}\npretext={case['pretext']}"
     if not outcome["ok"]:
         e = outcome["exc"]
+        if "tag:haplotig-slivers" in case["labels"]:
+            ctx.count(f"sliver-map-error:{e['type']}@{e['fn']}")  # hostile extras: an error is an allowed outcome
+            return
         ctx.violation(f"designed-tagging-raised-{e['type']}@{e['fn']}", f"{e['msg'][:500]}\n{desc}", stripped)
         return
     om = layout_ref.OutMap(outcome["out"])
